@@ -101,7 +101,7 @@ theorem serveFile_CLok (pg : Pages) (rq : Req) (b : Bytes) (r : Resp) :
 theorem handlerStatic_CLok (pg : Pages) (rq : Req) (p : Plan) (b : Bytes) (r : Resp) :
     CLok (handlerStatic pg rq p b r).1 ∨ (handlerStatic pg rq p b r).2 ≠ none := by
   unfold handlerStatic
-  have := serveFile_CLok pg rq b (withStatus p.h.st r)
+  have := serveFile_CLok pg rq b (withStatus p.h.st (withOwnCL p.h.setCL r))
   split
   · right; simp
   · rename_i r' heq
